@@ -39,7 +39,7 @@ def run(P: Program, R: Report, tier: str) -> None:
     A = ActionAnalysis(P, loop_iters=1 if tier == "quick" else 2)
     E0 = None
     keep = lambda e: e.kind in ("emit", "hist", "raise") or (  # noqa: E731
-        e.kind == "cond" and e.depth == 0
+        e.kind == "cond" and e.xdepth == 0
     ) or (e.kind == "mut" and e.name == "add_node") or e.kind == "construct"
     for c in A.user_actions:
         f = A.init_of(c)
@@ -91,6 +91,8 @@ def run(P: Program, R: Report, tier: str) -> None:
     # ---- R20.2 who may emit
     signals = E0.signals
     allowed_roles = {A.init_of(c).qname for c in A.user_actions}
+    # helper methods of the group hierarchy (their emissions are counted per path by R20.1)
+    allowed_roles |= {m.qname for c in P.subclasses("ActionGroup", strict=False) for m in c.methods.values()}
     tracks = P.class_named("Tracks")
     facade = {}
     for name, m in tracks.methods.items():
@@ -118,7 +120,7 @@ def run(P: Program, R: Report, tier: str) -> None:
                         "only user-action constructors, the undo/redo facade and the listed legacy "
                         "controller method may emit the refresh signal",
                         via="exception:legacy-controller" if fn.short in LEGACY_EMITTERS else "who-may-call")
-    R.floor("R20.2", "emit sites", n_sites, 8)
+    R.floor("R20.2", "emit sites", n_sites, 3)
     check_facade(R, A, facade)
     R.floor("R20.2", "facade methods", len(facade), 2)
 
